@@ -563,6 +563,10 @@ func (d *Dec) UnmarshalAmino(text string) (err error) {
 	if err != nil {
 		return err
 	}
+	// only the spelling MarshalAmino produces (see unmarshalAmino in int.go)
+	if tempInt.String() != text {
+		return fmt.Errorf("non-canonical decimal encoding: %q", text)
+	}
 	d.Int = tempInt
 	return nil
 }
